@@ -1,0 +1,13 @@
+//go:build verif
+
+package reactive
+
+// VerifHookWaitGroupAddDuplicate, when set, is called by waitGroup.Add after an element was found to be pending
+// already and before the pending counter is corrected (verification builds only).
+var VerifHookWaitGroupAddDuplicate func()
+
+func verifWaitGroupAddDuplicate() {
+	if hook := VerifHookWaitGroupAddDuplicate; hook != nil {
+		hook()
+	}
+}
